@@ -393,7 +393,8 @@ class History:
         rng = self.rng
         ops = [("shift_common", 3), ("shift_common_v", 3), ("append", 4), ("update", 4), ("filtered", 3),
                ("sliced", 3), ("slices1d", 1), ("reindexed", 3), ("reindexed_default", 1), ("collapsed", 3),
-               ("copy", 1), ("column_stack", 2), ("set_update", 2), ("observe", 2), ("indx", 1), ("fresh", 1)]
+               ("copy", 1), ("column_stack", 2), ("set_update", 2), ("observe", 2), ("indx", 1), ("fresh", 1),
+               ("from_array_opts", 2)]
         only = self.profile.get("ops")
         if only:
             ops = [(o, w) for o, w in ops if o in only]
@@ -405,6 +406,71 @@ class History:
     # ---- operations (return False when not applicable to the pool) ----- #
     def op_fresh(self):
         self.add(self.fresh())
+        return True
+
+    def op_from_array_opts(self):
+        """Construction from an array with every option (common given / absent / omitted, counts,
+        mapping incl. many-to-one), also on inputs shaped to select the row-scan strategy."""
+        from catii import iindex
+
+        rng = self.rng
+        rowscan = rng.random() < 0.4
+        vals = list(self.vals)
+        if rowscan:
+            while len(vals) < 6:
+                vals.append(max(vals) + 1)
+            n = int(gen.pick(rng, [100, 200, 400]))
+            dist = gen.pick(rng, ["sparse", "verysparse"])
+        else:
+            n = int(gen.pick(rng, [0, 1, 3, 8, 13]))
+            dist = gen.pick(rng, gen.DIST_CLASSES)
+        ndim = int(rng.integers(1, 3))
+        shape = (n,) if ndim == 1 else (n, int(rng.integers(1, 4)))
+        m = gen.draw_values(rng, int(numpy.prod(shape)), vals, dist).astype(I64).reshape(shape)
+        present = [int(v) for v in numpy.unique(m).tolist()] if m.size else []
+        kw = {}
+        ccls = gen.pick(rng, ["omitted", "present", "absent"])
+        if not present:
+            ccls = "absent"
+        if ccls == "present":
+            kw["common"] = int(gen.pick(rng, present))
+        elif ccls == "absent":
+            kw["common"] = int(max(vals) + 7)
+        domain = list(dict.fromkeys(present + ([kw["common"]] if "common" in kw else [])))
+        mcls = gen.pick(rng, ["none", "none", "shift", "permute", "many_to_one", "into_common"])
+        mp = None
+        if mcls != "none" and domain:
+            if mcls == "shift":
+                mp = {v: v + 2 for v in domain}
+            elif mcls == "permute":
+                q = list(domain)
+                rng.shuffle(q)
+                mp = dict(zip(domain, [int(v) for v in q]))
+            else:
+                mp = {v: v for v in domain}
+                if len(domain) >= 2:
+                    if mcls == "into_common" and m.size:
+                        u, c = numpy.unique(m, return_counts=True)
+                        top = kw.get("common", int(u[int(numpy.argmax(c))]))
+                        others = [v for v in domain if v != top]
+                        mp[int(gen.pick(rng, others))] = mp[top]
+                    else:
+                        a, b = [domain[int(i)] for i in rng.choice(len(domain), size=2, replace=False)]
+                        mp[a] = mp[b]
+            kw["mapping"] = dict(mp)
+        if rng.random() < 0.4:
+            if m.size:
+                u, c = numpy.unique(m, return_counts=True)
+                kw["counts"] = dict(zip([int(x) for x in u.tolist()], [int(x) for x in c.tolist()]))
+            else:
+                kw["counts"] = {}
+        self.log("from_array", shape=shape, common=ccls, mapping=mcls, counts="counts" in kw, rowscan_shape=rowscan)
+        x = iindex.from_array(m.copy(), **kw)
+        model = m if mp is None else numpy.array([mp[int(v)] for v in m.ravel().tolist()], dtype=I64).reshape(m.shape)
+        live = Live(x, model, "from_array")
+        self.entry_set_changed = True
+        self.add(live)
+        self.after_step([live], normalised=[live] if ccls == "omitted" else [])
         return True
 
     def op_shift_common(self):
